@@ -20,12 +20,16 @@ PANICKERS = ("core::result::Result::<T, E>::unwrap", "core::result::Result::<T, 
              "core::result::Result::<T, E>::expect_err")
 
 
+_SEND_DEFS = set()
+
+
 def is_io_call(cs):
     for tr, ms in IO_METHODS:
         for m in ms:
             if cs.is_trait_method(tr, m):
                 return True
-    if cs.name in ("write_all_vectored",) and "metrique" in cs.def_:
+    # the workspace's own vectored-send helper (by role: a local function whose result is an io::Result and that reaches write_vectored)
+    if "metrique" in cs.def_ and cs.def_ in _SEND_DEFS:
         return True
     return False
 
@@ -138,6 +142,10 @@ def cycle_must_pass(body, site, through):
 
 def run(ctx):
     F = ctx.facts("dbg")
+    _SEND_DEFS.clear()
+    for b_ in F.all_bodies(WS_LIBS) if "WS_LIBS" in globals() else []:
+        if any(c_.is_trait_method("Write", "write_vectored") for c_ in b_.calls()) and "io::error::Error" in (b_.locals[0]["ty"] if b_.locals else ""):
+            _SEND_DEFS.add(b_.def_)
     # ------------------------------------------------------------------------ R16.1
     n = 0
     for b in F.all_bodies(WS_LIBS):
